@@ -30,13 +30,16 @@ type c02Case struct {
 	// is rendered again — that second rendering is the one judged (structure only: whether a late option takes
 	// effect at all is not this property's business)
 	Late bool `json:"late,omitempty"`
+	// Charset: message charset set with WithCharset ("" = the default UTF-8). With another charset the value round
+	// trip is only judged for 7-bit values (what an encoded-word labelled US-ASCII with 8-bit content means is open)
+	Charset string `json:"charset,omitempty"`
 }
 
 var c02Setters = []string{"subject", "gen-header", "from-name", "to-name", "cc-name", "replyto-name", "message-id", "organization", "user-agent",
 	"attachment-name", "embed-name", "file-description", "part-description", "content-id", "mdn-name", "mdn-add-name"}
 
 // c02Apply builds the message of the given shape and applies the setter(s). It returns the first setter error.
-func c02Build(shape int, b bool, sets [][2]interface{}, late bool) (*mail.Msg, error) {
+func c02Build(shape int, b bool, sets [][2]interface{}, late bool, charset string) (*mail.Msg, error) {
 	lateSets := sets
 	if late {
 		// first the benign state, rendered once
@@ -50,7 +53,11 @@ func c02Build(shape int, b bool, sets [][2]interface{}, late bool) (*mail.Msg, e
 	if b {
 		enc = mail.EncodingB64
 	}
-	m := mail.NewMsg(mail.WithEncoding(enc))
+	mo := []mail.MsgOption{mail.WithEncoding(enc)}
+	if charset != "" {
+		mo = append(mo, mail.WithCharset(mail.Charset(charset)))
+	}
+	m := mail.NewMsg(mo...)
 	m.SetDateWithValue(hx.T0)
 	m.SetMessageIDWithValue("fixed.id@harness.example")
 	_ = m.From("sender@snd.example")
@@ -305,8 +312,8 @@ func parseDisplayName(fieldValue, addr string) (string, error) {
 func c02Exec(r *vf.Run, k c02Case) []finding {
 	if k.Setter2 >= 0 {
 		// a pair is only interesting when each setter alone is fine: report pair-specific findings only
-		a := c02Exec(r, c02Case{Setter: k.Setter, Value: k.Value, Shape: k.Shape, B: k.B, Setter2: -1})
-		b := c02Exec(r, c02Case{Setter: k.Setter2, Value: k.Value2, Shape: k.Shape, B: k.B, Setter2: -1})
+		a := c02Exec(r, c02Case{Setter: k.Setter, Value: k.Value, Shape: k.Shape, B: k.B, Setter2: -1, Charset: k.Charset})
+		b := c02Exec(r, c02Case{Setter: k.Setter2, Value: k.Value2, Shape: k.Shape, B: k.B, Setter2: -1, Charset: k.Charset})
 		if len(a) > 0 || len(b) > 0 {
 			return nil
 		}
@@ -340,7 +347,7 @@ func c02ExecOne(r *vf.Run, k c02Case) []finding {
 		var serr, werr error
 		pan, pw := vf.Guard(func() {
 			var m *mail.Msg
-			m, serr = c02Build(k.Shape, k.B, s, k.Late)
+			m, serr = c02Build(k.Shape, k.B, s, k.Late, k.Charset)
 			if serr == nil {
 				_, werr = m.WriteTo(&buf)
 			}
@@ -435,6 +442,9 @@ func c02ExecOne(r *vf.Run, k c02Case) []finding {
 		}
 	}
 	if len(out) > 0 || k.Setter2 >= 0 || k.Late {
+		return out
+	}
+	if k.Charset != "" && bytes.IndexFunc(k.Value, func(r rune) bool { return r >= 128 }) >= 0 {
 		return out
 	}
 	// value round trip
@@ -615,7 +625,7 @@ func init() {
 	vf.Register(&vf.Check{
 		ID: "C02", Title: "no caller-supplied text can alter the header block",
 		Run: func(r *vf.Run) {
-			r.SetRule("16 text-accepting setters (subject, generic header, From/To/Cc/Reply-To and Disposition-Notification-To display names, message-id, organisation, user-agent, attachment and embed file names, file and part descriptions, content-id) × values {every byte 0..255 at start/middle/end of a carrier; all 2-grams (thorough: 3-grams) over 16 dangerous symbols CR LF NUL TAB SP \" \\ < > : ; = ? 0x80 0xFF ü; lengths 0,1,74..79,200,1000; classic injection payloads; values that as a whole look like one RFC 2047 encoded-word with every 2-gram of the symbols inside the wrapper} × header encoder {Q,B} × shape {single part, alternative, mixed+related}, alone, (2-grams) in pairs of setters, and — for the file and part attributes — applied to the existing File / Part objects after a first rendering (second rendering judged); oracle is differential: every header section must have exactly the field names of the same message built with a benign value, bodies unchanged, and the value must decode back (RFC 2047, WSP-normalised; file names after the documented '_' replacement) unless the setter returned an error; distinct by case tuple")
+			r.SetRule("16 text-accepting setters (subject, generic header, From/To/Cc/Reply-To and Disposition-Notification-To display names, message-id, organisation, user-agent, attachment and embed file names, file and part descriptions, content-id) × values {every byte 0..255 at start/middle/end of a carrier; all 2-grams (thorough: 3-grams) over 16 dangerous symbols CR LF NUL TAB SP \" \\ < > : ; = ? 0x80 0xFF ü; lengths 0,1,74..79,200,1000; classic injection payloads; values that as a whole look like one RFC 2047 encoded-word with every 2-gram of the symbols inside the wrapper} × header encoder {Q,B} × shape {single part, alternative, mixed+related} × message charset {UTF-8 (all), US-ASCII, ISO-8859-1, UTF-7}, alone, (2-grams) in pairs of setters, and — for the file and part attributes — applied to the existing File / Part objects after a first rendering (second rendering judged); oracle is differential: every header section must have exactly the field names of the same message built with a benign value, bodies unchanged, and the value must decode back (RFC 2047, WSP-normalised; file names after the documented '_' replacement) unless the setter returned an error; distinct by case tuple")
 			r.Assume("*Preformatted setters are raw by contract and excluded", "header names, content types and charsets are typed constants, not free text",
 				"message-id / content-id values are only compared when they are printable ASCII without blanks and angle brackets")
 			vals := c02Values(r.Thorough)
@@ -630,6 +640,17 @@ func init() {
 							}
 							cases = append(cases, c02Case{Setter: s, Value: v, Shape: shape, B: b, Setter2: -1})
 						}
+					}
+				}
+			}
+			// other message charsets: every setter × every value (quick: the n-gram values rotate over the charsets)
+			for ci, cs := range []string{"US-ASCII", "ISO-8859-1", "UTF-7"} {
+				for s := range c02Setters {
+					for vi, v := range vals {
+						if !r.Thorough && vi >= 768 && len(v) > 2 && (vi+s)%3 != ci {
+							continue
+						}
+						cases = append(cases, c02Case{Setter: s, Value: v, Shape: (vi + s) % 3, B: (vi/3+ci)%2 == 0, Setter2: -1, Charset: cs})
 					}
 				}
 			}
